@@ -165,7 +165,7 @@ package ops
 //@   loop 1 invariant (forall k :: axis < k && k < rank(A) ==> dim(A, k) == dim(B0, k)) ==> B == B0
 
 //@ func UnidirectionalBroadcast
-//@   tags C14,C02,C03
+//@   tags C14,C02,C03,C10
 //@   scope operands_present: A != nil && B != nil
 //@   scope extents_positive: dims_positive(A) && dims_positive(B)
 //@   ensures compatible_iff_ok: (err == nil) <==> (rank(B) <= rank(A) &&
@@ -352,14 +352,29 @@ package ops
 //@   modifies cont(t1)
 
 //@ func Tanh
-//@   tags C02
+//@   tags C10,C02
+//@   requires X != nil
 //@   ensures new_result: err == nil ==> result != nil && fresh(result)
+//@   ensures float32_elementwise: dtype(X) == Float32 ==> err == nil && same_shape(result, X) && dtype(result) == Float32 && gen32(result) == math32_Tanh(gen32(X))
+//@   ensures float64_elementwise: dtype(X) == Float64 ==> err == nil && same_shape(result, X) && dtype(result) == Float64 && gen64(result) == math_Tanh(gen64(X))
+
 //@ func Sigmoid
-//@   tags C02
+//@   tags C10,C02
+//@   requires X != nil
 //@   ensures new_result: err == nil ==> result != nil && fresh(result)
+//@   ensures float32_elementwise: dtype(X) == Float32 ==> err == nil && same_shape(result, X) && dtype(result) == Float32 &&
+//@          gen32(result) == fone32() / (fone32() + math32_Exp(fneg32(gen32(X))))
+//@   ensures float64_elementwise: dtype(X) == Float64 ==> err == nil && same_shape(result, X) && dtype(result) == Float64 &&
+//@          gen64(result) == fone64() / (fone64() + math_Exp(fneg64(gen64(X))))
+
 //@ func ReLU
-//@   tags C02
+//@   tags C10,C02
+//@   requires X != nil
 //@   ensures new_result: err == nil ==> result != nil && fresh(result)
+//@   ensures float32_shape_and_type: dtype(X) == Float32 ==> err == nil && same_shape(result, X) && dtype(result) == Float32
+//@   ensures float32_elementwise: dtype(X) == Float32 && err == nil ==> relu_is32(gen32(X), gen32(result))
+//@   ensures float64_shape_and_type: dtype(X) == Float64 ==> err == nil && same_shape(result, X) && dtype(result) == Float64
+//@   ensures float64_elementwise: dtype(X) == Float64 && err == nil ==> relu_is64(gen64(X), gen64(result))
 
 // ---------------------------------------------------------------------------------------
 // C11: Cast
